@@ -246,7 +246,7 @@ def dense_config(rng, nmodes, la_prob=0.2, trans=True, npat=(1, 4)):
 class C06(ScanProperty):
     ID = 'C06'
     THEOREMS = [('Properties.C06', ['C06_has_transition_is_lookup', 'C06_mode_after_next', 'C06_peek_keeps_state', 'C06_set_mode',
-                                    'C06_fresh_iterator_mode0', 'C06_compiled_modes_ok'])]
+                                    'C06_fresh_iterator_mode0', 'C06_compiled_modes_ok', 'C06_built_transitions_are_configured'])]
     COQ_TARGETS = ['Properties/C06.vo']
     ASSUMPTIONS = ['at least one mode; transitions strictly sorted by token type and leading to existing modes; set_mode to existing modes',
                    'distinct token types inside a mode (D8), token types < 2^32 (D9)']
@@ -326,7 +326,7 @@ class C06(ScanProperty):
 class C07(ScanProperty):
     ID = 'C07'
     THEOREMS = [('Properties.C07', ['C07_find_from_nonempty', 'C07_stream_wf', 'C07_none_is_sticky', 'C07_scan_never_panics',
-                                    'C07_compiled_never_panics'])]
+                                    'C07_compiled_never_panics', 'C07_built_scanner_never_panics'])]
     COQ_TARGETS = ['Properties/C07.vo']
     ASSUMPTIONS = ['valid configuration: at least one mode, transitions to existing modes; set_offset on character boundaries or beyond',
                    'build-time panic freedom is property C15 (Nfa model) and C03 (minimizer totality); the closure construction is observed',
@@ -658,7 +658,8 @@ class C01(ScanProperty):
                                     'C01_skip_one_character', 'C01_lang_equiv_from_certificate', 'C01_find_equals_specification',
                                     'C01_specification_is_maximal_candidate', 'C01_simple_builder_types', 'C01_nonvacuous']),
                 ('Properties.C01c', ['C01_compiled_mode_finds_specified_token', 'C01_compiled_scanner_is_specification',
-                                     'C01_terminal_ids_are_pattern_order', 'C01_capstone_nonvacuous', 'C01_capstone_check_sound', 'C01_built_mode_ok'])]
+                                     'C01_terminal_ids_are_pattern_order', 'C01_capstone_nonvacuous', 'C01_capstone_check_sound', 'C01_built_mode_ok', 'C01_source_rule',
+                                     'C01_specification_patterns_are_the_source_patterns'])]
     COQ_TARGETS = ['Properties/C01.vo', 'Properties/C01c.vo']
     CERTS = {'quick': 40, 'thorough': 600}
 
